@@ -174,7 +174,7 @@ CHECKS["C17"] = {
     "technique": "runtime monitoring: acceptance predicate written from the statement compared with init_with_config / init_with_config_file over a geometry grid; for accepted rows the effective geometry (accessor hook + behavioural window check under the virtual clock), a real flow-limited entry sequence and all public config getters are observed on the initialising thread and on a freshly spawned std::thread",
     "rule": "cases = (sample_count_total, interval_ms_total, sample_count, interval_ms) from the grid {0,1,2,3,4,7,10,20} x {0,500,999,1000,2000,10000} x {0..5} x {0,100,250,500,1000,2000,3000,10000} (2304 rows incl. zero, non-dividing and non-tiling values) plus random rows, alternately given as ConfigEntity and as YAML text (collectors, cached time and metric log switched off, so no background threads). All rows count; distinct = distinct (entity/yaml, servable?, window tiles ring?, bucket counts divide?, zero present?)",
     "level_text": "accepted iff the default metric window can be served by the global window; for every accepted row: no panic, node geometry as configured and an event leaves the default window exactly one configured window later, a threshold-2 flow rule admits exactly 2 of 4 simultaneous requests - on the initialising thread and on another thread - and all configuration getters agree between the two threads; exploration (the grid is enumerated completely).",
-    "level_note": "What remains in effect after a rejected initialisation is not asserted.",
+    "level_note": "A rejected initialisation must leave the configuration in effect untouched (getters before = after, first touches on both threads work with the previous geometry). Rows run in sequence inside one shard process, so nodes created under earlier configurations exist when the next one is accepted.",
     "design_ref": "DESIGN.md §5 C17",
     "assumptions": COMMON_ASSUMPTIONS + ["YAML documents are hand-written by the monitor (all keys present)"],
 }
